@@ -62,9 +62,9 @@ def run_world(engine, spec, timeout):
                     "tb": traceback.format_exc()[-4000:],
                 }
             try:
-                data = json.dumps(res).encode()
+                data = b"\n" + json.dumps(res).encode()
             except Exception as e:
-                data = json.dumps(
+                data = b"\n" + json.dumps(
                     {"status": "harness_error", "error": "unserialisable result: %r" % (e,)}
                 ).encode()
             off = 0
@@ -106,15 +106,24 @@ def run_world(engine, spec, timeout):
     except Exception:
         pass
     tb.close()
+    # the world may write progress lines before its final result line
+    lines = [l for l in b"".join(chunks).split(b"\n") if l.strip()]
+    progress = None
+    final = None
+    for l in lines:
+        try:
+            o = json.loads(l)
+        except Exception:
+            continue
+        if isinstance(o, dict) and "status" in o:
+            final = o
+        else:
+            progress = o
     if timed_out:
-        return {"status": "timeout", "timeout_s": timeout, "tb": tbtxt}
-    data = b"".join(chunks)
-    if not data:
-        return {"status": "crash", "wait_status": st, "tb": tbtxt}
-    try:
-        return json.loads(data)
-    except Exception as e:
-        return {"status": "harness_error", "error": "bad world output: %r" % (e,), "tb": tbtxt}
+        return {"status": "timeout", "timeout_s": timeout, "tb": tbtxt, "progress": progress}
+    if final is None:
+        return {"status": "crash", "wait_status": st, "tb": tbtxt, "progress": progress}
+    return final
 
 
 def main():
